@@ -158,6 +158,94 @@ class LoopMachine(Machine):
             cont = c2
         return cont, brk, ret, exitf
 
+    def condition_facts(self, h, cond, lid):
+        """What the loop condition, when true at iteration k, establishes about k and loop-invariant quantities:
+        (upper bound on k | None, [linear facts a*k + rest + c <= 0 with loop-invariant rest])."""
+        kterm = ('sym', 'iter:' + lid, 0, INF)
+        saved_obs, saved_quiet, saved_log = self.obs, getattr(self, 'quiet', False), getattr(self, 'store_log', None)
+        self.quiet, self.obs, self.store_log = True, {}, None
+        per_state = []
+        try:
+            pre = set(f.key() for f in h.facts)      # (`a && b` already assumes `a` while it is evaluated)
+            for s2, cv in self.rval(h.fork(), cond):
+                s_t, _s_f = self.branch(s2, cv)
+                if s_t is None:
+                    continue
+                fs_ = {}
+                for f in s_t.facts:
+                    if f.key() in pre or kterm not in f.co:
+                        continue
+                    if all(a == kterm or loop_invariant(a, lid) for a in f.co):
+                        fs_[f.key()] = f
+                per_state.append((s_t.dom(kterm).hi, fs_))
+        except Exception:
+            per_state = []
+        finally:
+            self.obs, self.quiet, self.store_log = saved_obs, saved_quiet, saved_log
+        if not per_state:
+            return None
+        hi = max(x[0] for x in per_state)
+        common = set(per_state[0][1])
+        for _h, fs_ in per_state[1:]:
+            common &= set(fs_)
+        return (hi if hi != INF else None, [per_state[0][1][k_] for k_ in sorted(common, key=repr)])
+
+    def apply_previous_condition(self, exitf, prev, lid):
+        """A loop left through its condition at iteration k >= 1 ran iteration k-1, whose condition was true: transfer
+        what that established (shifted by one iteration) to the exit states; split off k == 0 only where needed."""
+        kterm = ('sym', 'iter:' + lid, 0, INF)
+        hi, facts = prev
+        out = []
+        for s2 in exitf:
+            if hi is not None:
+                if not s2.refine(kterm, Dom(0, hi + 1)):
+                    continue
+            shifted = []
+            for f in facts:
+                g = Lin(dict(f.co), f.k - f.co[kterm])
+                shifted.append(g)
+            need_split = []
+            for g in shifted:
+                if s2.entails_le0(g):
+                    continue
+                z = s2.fork()
+                if z.refine(kterm, Dom(0, 0)) and z.entails_le0(g):
+                    s2.add_fact(g)      # also true when the loop never ran
+                else:
+                    need_split.append(g)
+            if not need_split:
+                out.append(s2)
+                continue
+            z = s2.fork()
+            if z.refine(kterm, Dom(0, 0)) and z.consistent():
+                out.append(z)
+            if s2.refine(kterm, Dom(1, INF)):
+                for g in need_split:
+                    s2.add_fact(g)
+                if s2.consistent():
+                    out.append(s2)
+        return out
+
+    def next_condition(self, st, cond):
+        """'T' / 'F' / '?': value of the loop condition in state st (nothing is recorded)."""
+        if cond is None:
+            return 'T'
+        saved_obs, saved_quiet, saved_log = self.obs, getattr(self, 'quiet', False), getattr(self, 'store_log', None)
+        self.quiet, self.obs, self.store_log = True, {}, None
+        can_t = can_f = False
+        try:
+            for s2, cv in self.rval(st.fork(), cond):
+                s_t, s_f = self.branch(s2, cv)
+                if getattr(self, 'debug_loops', False):
+                    print('next_condition', short(cv.t), 'T' if s_t is not None else '-', 'F' if s_f is not None else '-')
+                if s_t is not None and not sharp_infeasible(s_t):
+                    can_t = True
+                if s_f is not None and not sharp_infeasible(s_f):
+                    can_f = True
+        finally:
+            self.obs, self.quiet, self.store_log = saved_obs, saved_quiet, saved_log
+        return 'T' if can_t and not can_f else 'F' if can_f and not can_t else '?'
+
     def summarise(self, entry, s, cond, inc, body, cond_first):
         lid = self.loop_id(s)
         entry_objs = set(entry.objs)
@@ -239,13 +327,16 @@ class LoopMachine(Machine):
                     if cell is None or cell[0] != n or cell[1][0] in ('ptr', 'pset', 'fn'):
                         okv = False
                         break
-                    l = lin_of(s2.canon(cell[1])).add(lin_of(entry.canon(init)), -1)
+                    # (the path may have learnt the initial value, e.g. `last = (remaining == 1)`: compare under its knowledge)
+                    l = lin_of(s2.canon(cell[1])).add(lin_of(s2.canon(init)), -1)
                     if not l.is_const() or (step is not None and step != l.k):
                         okv = False
                         break
                     step = l.k
                 if okv and step:
                     cands[(oid, key)] = step
+                elif getattr(self, 'debug_loops', False):
+                    print('loop', lid, 'not a candidate', oid, key, 'init', short(entry.canon(init)), 'n', n, 'step', step, 'after', [(s2.objs[oid].cells[key][0], short(s2.canon(s2.objs[oid].cells[key][1])), repr(lin_of(s2.canon(s2.objs[oid].cells[key][1])).add(lin_of(entry.canon(init)), -1))) for s2 in cont0 if oid in s2.objs and key in s2.objs[oid].cells][:8])
             kterm = ('sym', 'iter:' + lid, 0, INF)
             for _round in range(6):
                 if not cands:
@@ -347,17 +438,27 @@ class LoopMachine(Machine):
         h.tags = dict(h.tags)
         live_before = set(oid for oid, o in h.objs.items() if o.heap and o.live)
         iter_start = h.fork() if getattr(self, 'keep_iter_states', False) else None
+        prev_facts = self.condition_facts(h, cond, lid) if (cond is not None and cond_first and induct) else None
         cont, brk, ret, exitf = self.one_iteration(h, cond, inc, body, cond_first)
+        if prev_facts:
+            exitf = self.apply_previous_condition(exitf, prev_facts, lid)
         iter_traces = set()
         keep = getattr(self, 'keep_iter_states', False)
         snap_states = []
         if keep:
             for s2 in cont:
-                snap_states.append(('continue', s2.trace, s2.fork()))
+                snap = s2.fork()
+                # is the loop condition true / false after this iteration?  (`last iteration` without depending on
+                # how the code spells it: up-counting index, countdown, pointer walk ...)
+                snap.tags = dict(snap.tags)
+                snap.tags['next:' + lid] = self.next_condition(s2, cond) if cond_first else 'T'
+                snap_states.append(('continue', s2.trace, snap))
             for s2 in brk:
                 snap_states.append(('break', s2.trace, s2.fork()))
             for s2, _c in ret:
                 snap_states.append(('return', s2.trace, s2.fork()))
+        # leaving through the loop condition: index n_ is what the `exit:<lid>` tag of the state carries
+        exit_snaps = [s2.fork() for s2 in exitf] if keep else None
         for s2 in cont:
             iter_traces.add(s2.trace)
             leaked = [oid for oid, o in s2.objs.items() if o.heap and o.live and oid not in live_before
@@ -405,7 +506,7 @@ class LoopMachine(Machine):
             info[lid] = {'induction': {('%s%s' % (oid, key[1])): st_ for (oid, key), st_ in induct.items()},
                          'modified': sorted('%s+%s' % (oid, key[1]) for (oid, key) in mods),
                          'smashed': sorted(smashed), 'iter_traces': len(iter_traces), 'node': s,
-                         'iter_states': snap_states if keep else None, 'iter_start': iter_start,
+                         'iter_states': snap_states if keep else None, 'iter_start': iter_start, 'exit_snaps': exit_snaps,
                          'exit_states': len(exitf)}
         return outs
 
@@ -473,3 +574,29 @@ class LoopMachine(Machine):
             for k in [k for k in o.cells if k[0]]:
                 del o.cells[k]
             mem.add_region(o, ((), 0), o.size, 'loop:' + lid)
+
+
+def loop_invariant(atom, lid):
+    """An atom of a linear fact that cannot change from one iteration of loop `lid` to the next."""
+    r = repr(atom)
+    return not any(x in r for x in ('iter:' + lid, 'iter2:' + lid, 'hv:', 'weak:', 'region:', 'smash:', 'wrapped:'))
+
+
+def sharp_infeasible(st):
+    """A state whose inequalities force two terms equal that it knows to differ (x <= y, y <= x, x != y) is infeasible;
+    `assume` does not look for this combination."""
+    for pr in st._neq_canon():
+        if len(pr) != 2:
+            continue
+        x, y = tuple(pr)
+        if x[0] in ('ptr', 'pset', 'fn') or y[0] in ('ptr', 'pset', 'fn'):
+            continue
+        if st.prove_le(x, y) and st.prove_le(y, x):
+            return True
+    for a, d in list(st.env.items()):
+        if not d.ex or len(d.ex) > 4 or a[0] in ('in', 'sym'):
+            continue
+        for v in d.ex:
+            if st.prove_le(a, C(v)) and st.prove_le(C(v), a):
+                return True
+    return False
